@@ -98,6 +98,7 @@ func FromStats(prop, name string, bound int, st *sched.Stats) *ScenarioResult {
 func ExploreScenario(c *Ctx, prop, name string, opt sched.Options, body func(), judge sched.Judge) *ScenarioResult {
 	t0 := time.Now()
 	if c.Replay != nil {
+		sched.BoundAll = opt.BoundAll
 		e := sched.Replay(c.Replay.Choices, opt.MaxSteps, body)
 		outcome, digest, fail := judge(e)
 		for _, l := range e.Log {
@@ -116,7 +117,20 @@ func ExploreScenario(c *Ctx, prop, name string, opt sched.Options, body func(), 
 		}
 		return r
 	}
+	if os.Getenv("VERIF_TRACE0") != "" {
+		e := sched.Replay(nil, opt.MaxSteps, body)
+		for _, l := range e.Log {
+			fmt.Fprintln(c.Out, l)
+		}
+		for i, p := range e.Points {
+			fmt.Fprintf(c.Out, "D%d n=%d costs=%v %s\n", i, p.N, p.Costs, p.Desc)
+		}
+		fmt.Fprintf(c.Out, "status=%s blocked=%v\n", e.Status(), e.Blocked)
+	}
 	opt.Deadline = c.Deadline
+	if v := os.Getenv("VERIF_MAXEXECS"); v != "" {
+		fmt.Sscanf(v, "%d", &opt.MaxExecs)
+	}
 	if os.Getenv("VERIF_NOCACHE") != "" {
 		opt.NoCache = true
 	}
